@@ -162,7 +162,9 @@ class Session:
         if rebind_port:
             s.setsockopt(socket.SOL_SOCKET, socket.SO_REUSEADDR, 1)  # (never with port 0: the kernel could then hand out a port twice)
         s.setsockopt(socket.SOL_SOCKET, socket.SO_RCVBUF, 16 << 20)
-        s.bind(("127.0.0.1", rebind_port or 0))
+        # a port of its own that no other session of this run ever gets (a kernel-chosen port could be one that another session
+        # closed a moment ago, whose late replies would then reach the wrong owner - UDP semantics, not the proxy's doing)
+        s.bind(("127.0.0.1", rebind_port or free_port()))
         s.setblocking(False)
         self.sock = s
         self.reader = asyncio.ensure_future(self._read_udp())
